@@ -1,5 +1,6 @@
 import Driver.Util
 import ClairModel.Model.Framing
+import ClairModel.Model.FeedTransfer
 
 /-!
   Line protocol of the C15 model.
@@ -10,15 +11,29 @@ import ClairModel.Model.Framing
     fail <k> <chunk> <mode>    stream = first k bytes in chunks, then a read error
     flip <pos> <xor>           (one-json) framing verdict of the feed with one byte changed
     drive <fetch> <parse>      driveUpdater: what the store is asked and whether the run succeeds
+    http <frame> <declared> <len> <fin>
+                               what net/http delivers for a response of <len> body bytes  -> <n> <eof|err>
+    xfer <frame> <declared> <k> <fin>
+                               Fetch + Parse over a response whose body is the first k bytes of the feed
+                                                                            -> failed | fetched <loop answer>
+    pipe <n> <term>            Fetch + Parse when the spooling stage is handed the first n bytes, then <term>
+    pipeaws <term> <hdrok> <n> <zterm>
+                               aws: the download ends in <term>, its gzip header is readable (0|1), and gzip
+                               makes the first n plaintext bytes then <zterm> of it
+    hist                       forget the stored update                     -> ok
+    run <version> <outcome>    one manager run against the stored fingerprint; outcome of a fetch that reads
+                               the body: fetch-failed | parse-failed | parsed  -> <call> <success>
 
-  Loops: one-json | one-json-end | one-xml | one-xml-drain | lines | records | records-cvss.
+  Loops: one-json | one-json-end | one-xml | one-xml-drain | one-json-drain | lines | records | records-cvss |
+         csv-epss | csv-vex-del | csv-vex-chg.
 -/
 namespace Driver.C15
-open ClairModel.Framing
+open ClairModel.Framing ClairModel.FeedTransfer
 
 structure St where
   loop : String := ""
   plain : Bytes := []
+  hist : HistState Unit := none
 
 def chunksOf (n : Nat) (bs : Bytes) : List Bytes :=
   if n = 0 then [bs] else
@@ -47,8 +62,45 @@ def lineSem (l : Bytes) : Option Unit :=
   | .complete _ => some ()
   | _ => none
 
+def showRecs {β : Type} : Res (List β) → String
+  | .ok vs => s!"ok {vs.length}"
+  | .err => "err"
+
+def allDigits (bs : Bytes) : Bool := !bs.isEmpty && bs.all isDigit
+
+/-- Shape of time.RFC3339 as the generated files use it:
+    YYYY-MM-DDTHH:MM:SS(Z|±HH:MM). -/
+def rfc3339Shape (t : Bytes) : Bool :=
+  let dig (i : Nat) : Bool := match t[i]? with | some b => isDigit b | none => false
+  let is (i : Nat) (c : UInt8) : Bool := t[i]? == some c
+  dig 0 && dig 1 && dig 2 && dig 3 && is 4 0x2d && dig 5 && dig 6 && is 7 0x2d && dig 8 && dig 9 &&
+  is 10 0x54 && dig 11 && dig 12 && is 13 0x3a && dig 14 && dig 15 && is 16 0x3a && dig 17 && dig 18 &&
+  ((t.length == 20 && is 19 0x5a) ||
+   (t.length == 25 && (is 19 0x2b || is 19 0x2d) && dig 20 && dig 21 && is 22 0x3a && dig 23 && dig 24))
+
+/-- path.Dir of "YYYY/name": what precedes the last slash. -/
+def dirOf (p : Bytes) : Bytes :=
+  let r := p.reverse.dropWhile (· != 0x2f)
+  match r with
+  | [] => [0x2e]
+  | _ :: d => d.reverse
+
+def keepDel (fs : List Bytes) : Option Bool :=
+  match fs with
+  | [_, t] => if rfc3339Shape t then some true else none
+  | _ => none
+
+def keepChg (fs : List Bytes) : Option Bool :=
+  match fs with
+  | [p, t] => if allDigits (dirOf p) && rfc3339Shape t then some true else none
+  | _ => none
+
 def runLoop (loop : String) (st : Stream) : String :=
   match loop with
+  | "one-json-drain" => showUnit (decodeOneDrain jsonStep jsonInit (fun _ => some ()) st)
+  | "csv-epss" => showRecs (epssCsv floatOk st)
+  | "csv-vex-del" => showRecs (vexCsv keepDel st)
+  | "csv-vex-chg" => showRecs (vexCsv keepChg st)
   | "one-json" => showUnit (decodeOne jsonStep jsonInit (fun _ => some ()) st)
   | "one-json-end" => showUnit (decodeOneEnd jsonStep jsonInit (fun _ => some ()) st)
   | "one-xml" => showUnit (decodeOne xmlStep xmlInit (fun _ => some ()) st)
@@ -57,6 +109,39 @@ def runLoop (loop : String) (st : Stream) : String :=
   | "records" => showCount (recordLoop jsonStep jsonInit (fun _ => some ()) st)
   | "records-cvss" => showCount (recordLoopCvss jsonStep jsonInit (fun _ => some ()) () st)
   | _ => "bad-op"
+
+def showTerm : Term → String
+  | .eof => "eof"
+  | .err => "err"
+
+def parseTerm : String → Option Term
+  | "eof" => some .eof
+  | "err" => some .err
+  | _ => none
+
+def parseScript (f d e : String) : Option (Bytes → Script) :=
+  let fr : Option Frame :=
+    match f with
+    | "length" => d.toNat?.map Frame.length
+    | "chunked" => some .chunked
+    | "close" => some .close
+    | _ => none
+  let fin : Option Fin :=
+    match e with
+    | "clean" => some .clean
+    | "close" => some .close
+    | "reset" => some .reset
+    | _ => none
+  match fr, fin with
+  | some fr, some fin => some (fun b => ⟨b, fr, fin⟩)
+  | _, _ => none
+
+/-- The parse stage answers with the loop's own protocol answer. -/
+def showFetch : FetchOut × Res String → String
+  | (.fetched, .ok a) => s!"fetched {a}"
+  | (.fetched, .err) => "fetched err"
+  | (.failed, _) => "failed"
+  | (.unchanged, _) => "unchanged"
 
 def firstNonWs : Bytes → Option Byte
   | [] => none
@@ -77,7 +162,7 @@ def step (s : St) (l : String) : St × String :=
       let s' : St := { loop := loop, plain := bs }
       let out :=
         match loop with
-        | "one-json" | "one-json-end" => showScan (scanJson bs)
+        | "one-json" | "one-json-end" | "one-json-drain" => showScan (scanJson bs)
         | "one-xml" | "one-xml-drain" =>
           (match scanXml bs with
            | .complete n => s!"complete {n}"
@@ -112,6 +197,44 @@ def step (s : St) (l : String) : St × String :=
         | .none => "none"
         | .update _ => "update"
       (s, s!"{call} {out.2}")
+    | _, _ => (s, "bad-op")
+  | ["http", f, d, n, e] =>
+    match parseScript f d e, n.toNat? with
+    | some mk, some n =>
+      let src := delivered (mk (List.replicate n 0))
+      (s, s!"{src.bytes.length} {showTerm src.term}")
+    | _, _ => (s, "bad-op")
+  | ["xfer", f, d, k, e] =>
+    match parseScript f d e, k.toNat? with
+    | some mk, some k =>
+      (s, showFetch (fetchParse (fun st => Res.ok (runLoop s.loop st)) (delivered (mk (s.plain.take k)))))
+    | _, _ => (s, "bad-op")
+  | ["pipe", n, t] =>
+    match n.toNat?, parseTerm t with
+    | some n, some t =>
+      (s, showFetch (fetchParse (fun st => Res.ok (runLoop s.loop st)) ⟨[s.plain.take n], t⟩))
+    | _, _ => (s, "bad-op")
+  | ["pipeaws", t, hdr, n, zt] =>
+    match parseTerm t, n.toNat?, parseTerm zt with
+    | some t, some n, some zt =>
+      (s, showFetch (fetchAws (fun _ => hdr == "1") (fun _ => ⟨[s.plain.take n], zt⟩)
+        (fun st => Res.ok (runLoop s.loop st)) ⟨[[]], t⟩))
+    | _, _, _ => (s, "bad-op")
+  | ["hist"] => ({ s with hist := none }, "ok")
+  | ["run", v, o] =>
+    let oc : Option (Outcome Unit) :=
+      match o with
+      | "fetch-failed" => some .fetchFailed
+      | "parse-failed" => some .parseFailed
+      | "parsed" => some (.parsed ())
+      | _ => none
+    match v.toNat?, oc with
+    | some v, some oc =>
+      let out := histStep s.hist ⟨v, oc⟩
+      let call := match out.2.1 with
+        | .none => "none"
+        | .update _ => "update"
+      ({ s with hist := out.1 }, s!"{call} {out.2.2}")
     | _, _ => (s, "bad-op")
   | ["flip", p, x] =>
     match p.toNat?, x.toNat? with
